@@ -53,9 +53,7 @@ theorem collect_spec (cs : List Nat) : ∀ (st : Nat → St) (i : Nat),
 theorem handles_count (st : Nat → St) (cs : List Nat) (rev : Bool) (i : Nat) :
     (handles st cs rev).count i = if Hit st cs i then 1 else 0 := by
   unfold handles
-  split
-  · rw [List.count_reverse]; exact (collect_spec cs st i).2
-  · exact (collect_spec cs st i).2
+  exact (collect_spec cs st i).2
 
 @[simp] theorem jobIds_nil : jobIds [] = [] := rfl
 @[simp] theorem jobIds_snoc (js : List (List Nat × Bool)) (hs : List Nat) (k : Bool) :
